@@ -46,8 +46,9 @@ pub fn init() {
     static ONCE: Once = Once::new();
     ONCE.call_once(|| {
         crate::runner::install_quiet_panic_hook();
-        // build the shared tables outside the timed region
-        let _ = crate::gen::hard_table();
+        // build the shared power table outside the timed region (the
+        // closest-approach table is not used by the fuzz targets: building it
+        // under the sanitizer's allocator takes longer than a quick campaign)
         let _ = crate::nat::pow5();
     });
 }
